@@ -1,11 +1,13 @@
 """C17  The F_q^12 tower engine and final exponentiation are correct on every element (through the cfg hooks)."""
-from .. import gen, rm
+from .. import gen, mon, rm
 from ..rm import q, r, R, h32, F1, F2, fmul, fpow, finv, frob, fadd, fsub, fneg
 
 ID = 'C17'
 PERTURB = (8, 80)      # cases re-run in the repeat / parallel perturbation passes (quick, thorough)
 EXES = ['release']
 NEEDS_HOOKS = True
+# with only part of the hooks compiling (a private tower / pairing method was refactored) the classes of the missing ops are waived
+HOOK_CLASSES = ('f4.', 'f12.', 'ml.', 'ln.')
 RULE = ('each event is one call of an internal tower / pairing-engine function, reached through the cfg(john_yu_sm9_core_verif) re-exports, '
         'on an arbitrary element built from a literal: Fq4 {mul, squared, inverse, mul_1 (sparse precondition), the eight Frobenius '
         'component maps, scale, scale_fq, mul_by_nonresidue, unitary_inverse, add, sub, neg}, Fq12 {mul, squared, inverse, mul_015 (sparse '
@@ -305,7 +307,10 @@ def run(ctx, spec):
         return run_lines(ctx, rng)
     ans = ctx.run(lines)
     mls = {}
+    dead = set()
     for line, an, (cls, want, key, nontriv) in zip(lines, ans, exp):
+        if mon.hook_unavailable(ctx, an, line, dead):
+            continue          # this op's hook group does not compile against the tree under test
         if cls == 'setup':
             if not an.startswith('ok '):
                 ctx.fail('setup', 'setup line answered %r (%s)' % (an[:100], line[:100]), observed=an, line=line)
@@ -379,7 +384,7 @@ def run_lines(ctx, rng):
     i_p1 = pr.emit('_', 'ln.pi1', Qreg)
     i_p2 = pr.emit('_', 'ln.pi2', Qreg)
     ans = ctx.run(pr.lines)
-    if any(a == 'ok unsupported' for a in ans):
+    if any(a == 'ok unsupported' or a.startswith('bad unknown op ln.') for a in ans):
         ctx.count('line-hooks-unavailable')
         ctx.notes.append('optional line-function hooks not available in this tree')
         return
